@@ -65,4 +65,31 @@ Lemma src_numel m : s_numel m = Ok (cols m * rows m). Proof. reflexivity. Qed.
 Lemma src_mindex m i j : s_mindex m (i, j) = mget m i j. Proof. reflexivity. Qed.
 Lemma src_mclear m : s_mclear m = Ok mat_empty. Proof. reflexivity. Qed.
 
+(* all of them at once: what a Props file pins as  model_is_source_<property>  *)
+Definition model_is_source_Matrix : Prop :=
+  (forall m r, s_get_row m r = get_row m r) /\
+  (forall m c, s_get_col m c = get_col m c) /\
+  (forall m r v, s_set_row m r v = set_row m r v) /\
+  (forall m c v, s_set_col m c v = set_col m c v) /\
+  (forall m v, s_multiply m v = multiply m v) /\
+  (forall n, @s_eye A n = eye n) /\
+  (forall m r c, s_resize m r c = resize m r c) /\
+  (forall m, s_transpose_in_place m = transpose_in_place m) /\
+  (forall m, s_transpose m = transpose m) /\
+  (forall m i j, s_swap_rows m i j = swap_rows m i j) /\
+  (forall m r c i j, s_swap_elem m r c i j = swap_elem m r c i j) /\
+  (forall m x, s_fill m x = fill m x) /\
+  (forall m x, s_fill_diag m x = fill_diag m x) /\
+  (forall m l d u, s_fill_tridiag m l d u = fill_tridiag m l d u) /\
+  (forall m r x, s_fill_row m r x = fill_row m r x) /\
+  (forall m c x, s_fill_col m c x = fill_col m c x) /\
+  (forall m r, s_delete_row m r = delete_row m r) /\
+  (forall m (o : Z) x, s_fill_band m o x = fill_band m o x) /\
+  (forall r c x, s_mat_new r c x = Ok (mat_new r c x)) /\
+  (forall m, s_numel m = Ok (cols m * rows m)) /\
+  (forall m i j, s_mindex m (i, j) = mget m i j) /\
+  (forall m, s_mclear m = Ok mat_empty).
+Lemma model_is_source_Matrix_lemma : model_is_source_Matrix.
+Proof. exact (conj src_get_row (conj src_get_col (conj src_set_row (conj src_set_col (conj src_multiply (conj src_eye (conj src_resize (conj src_transpose_in_place (conj src_transpose (conj src_swap_rows (conj src_swap_elem (conj src_fill (conj src_fill_diag (conj src_fill_tridiag (conj src_fill_row (conj src_fill_col (conj src_delete_row (conj src_fill_band (conj src_mat_new (conj src_numel (conj src_mindex src_mclear))))))))))))))))))))). Qed.
+
 End SrcEqMatrix.
